@@ -5,7 +5,9 @@
    Spec: Model/LoadSpec.v (expands, cut_of), Model/GlobSpec.v (gmatch, in_class, body_lists). *)
 From Coq Require Import List NArith Bool Sorting.Sorted.
 From Okv Require Import Model.Glob Model.GlobSpec Model.Load Model.LoadSpec
-  Proofs.GlobProofs Proofs.PathOrder Proofs.LoadProofs Proofs.LoadSplit Proofs.LoadCycle.
+  Proofs.GlobProofs Proofs.PathOrder Proofs.LoadProofs Proofs.LoadSplit Proofs.LoadCycle
+  Model.Syntax Model.ParseLedger Model.Lower Model.Convert Model.Display Model.RoundTripSpec
+  Model.Pipeline Model.PipelineSpec Proofs.PipelineLoad Proofs.PipelineProofs Proofs.PipelineExamples.
 Import ListNotations.
 Open Scope N_scope.
 
@@ -288,3 +290,124 @@ Theorem C11_cycle_is_error : forall fs f st p,
   In (canonicalize p) st -> loadc (S f) fs st p = ([], Failed IncludeCycle).
 Proof. exact cycle_is_error. Qed.
 Print Assumptions C11_cycle_is_error.
+
+(* ---------- end to end: files are TEXTS (Model/Pipeline.v, Model/PipelineSpec.v) ----------
+   `loadt` / `load_texts` is Loader::load_impl on a file system path |-> text: a file is parsed
+   when it is visited, its first syntax error ends the load with LoadError::Parse after the
+   entries before it.  `parse_fs` is that file system seen through Model/Load.v (every file
+   parsed up front, the i-th entry of a file `Inc written` or `Ent i`).  `run_files` = load,
+   then report::process on the delivered entries, then balance / register. *)
+
+(* the loader on texts is `loadc` over the parsed file system: exactly, unless it stops at a
+   syntax error (or a hazard value of the parser: there is none, C06_files_load_terminates) ... *)
+Theorem C11_text_loader_agrees : forall fs f st p,
+  ~ bad (snd (loadt f fs st p)) ->
+  map proj (fst (loadt f fs st p)) = fst (loadc f (parse_fs fs) st p) /\
+  snd (loadt f fs st p) = emb (snd (loadc f (parse_fs fs) st p)).
+Proof. exact loadt_exact. Qed.
+Print Assumptions C11_text_loader_agrees.
+
+(* ... and then what it delivered before that is an initial part of what `loadc` delivers (a
+   file with a syntax error that no include reaches is never parsed: Proofs/PipelineExamples.v
+   ex_unvisited) *)
+Theorem C11_text_loader_prefix : forall fs f st p,
+  exists k, map proj (fst (loadt f fs st p)) = firstn k (fst (loadc f (parse_fs fs) st p)).
+Proof. exact loadt_prefix. Qed.
+Print Assumptions C11_text_loader_prefix.
+
+(* cut_text_of is cut_of on the parsed file system with the ids resolved to the entries *)
+Theorem C11_cut_text_is_cut : forall fs root L, wf_tfs fs -> cut_text_of fs root L ->
+  exists out, cut_of (parse_fs fs) root (map snd out) /\ Forall2 (resolves fs) out L.
+Proof. exact cut_text_is_cut. Qed.
+Print Assumptions C11_cut_text_is_cut.
+
+(* every way of cutting the entry sequence L into a tree of text files (cut_text_of: each
+   file's text parses to some of the entries in order with includes - literal or glob, nested,
+   through any written path - in between) loads back to exactly L, in order, with any budget
+   beyond the number of files ... *)
+Theorem C11_cut_text_loads : forall fs root L,
+  wf_tfs fs -> cut_text_of fs root L ->
+  forall f, (length fs < f)%nat ->
+    exists out, load_texts f fs root = (out, TDone) /\ loaded_entries out = L.
+Proof. exact cut_text_loads. Qed.
+Print Assumptions C11_cut_text_loads.
+
+(* ... conversely a load that ends normally is a cut of what it delivered, and a text without
+   includes, in one file, is a cut of its entries *)
+Theorem C11_loaded_text_is_cut : forall fs, wf_tfs fs ->
+  forall f st p out, loadt f fs st p = (out, TDone) -> cut_text_of fs p (loaded_entries out).
+Proof. exact loaded_text_is_cut. Qed.
+Print Assumptions C11_loaded_text_is_cut.
+
+Theorem C11_uncut_text_is_cut : forall fs root text pes,
+  In (canonicalize root, text) fs -> parse_ledger text = LOk pes -> no_includes (map e_entry pes) ->
+  cut_text_of fs root (map e_entry pes).
+Proof. exact uncut_text_is_cut. Qed.
+Print Assumptions C11_uncut_text_is_cut.
+
+(* SPLITTING CHANGES NOTHING, end to end.  A ledger text in one file, and any way of cutting
+   its entries at entry boundaries into a tree of included text files (the files parse to the
+   entries up to same_meaning, i.e. up to the number-format flag that `format` may drop:
+   C05_roundtrip): `run_files` gives the same result for every option, price DB, chooser and
+   budgets beyond the number of files - the same balance and register report, the same
+   conversion error, or the same book-keeping error on the entry with the same number in load
+   order.  `unplaced` forgets only WHERE a book-keeping error is reported (file, span, line):
+   that necessarily differs and is the subject of C14_bookkeeping_error_entry. *)
+Theorem C11_split_texts_invariant : forall text pes root0 fs root L,
+  parse_ledger text = LOk pes -> no_includes (map e_entry pes) ->
+  wf_tfs fs -> cut_text_of fs root L -> same_meaning (map e_entry pes) L ->
+  forall f0 f qfuel choose o, (1 < f0)%nat -> (length fs < f)%nat ->
+    unplaced (run_files f0 qfuel choose o [(canonicalize root0, text)] root0) =
+    unplaced (run_files f qfuel choose o fs root).
+Proof. exact split_texts_invariant. Qed.
+Print Assumptions C11_split_texts_invariant.
+
+(* the same for any two cuts of the same entries: trees of different shape, depth and layout *)
+Theorem C11_split_texts_two_cuts : forall fs1 root1 L1 fs2 root2 L2,
+  wf_tfs fs1 -> wf_tfs fs2 ->
+  cut_text_of fs1 root1 L1 -> cut_text_of fs2 root2 L2 -> same_meaning L1 L2 ->
+  forall f1 f2 qfuel choose o, (length fs1 < f1)%nat -> (length fs2 < f2)%nat ->
+    unplaced (run_files f1 qfuel choose o fs1 root1) = unplaced (run_files f2 qfuel choose o fs2 root2).
+Proof. exact split_texts_two_cuts. Qed.
+Print Assumptions C11_split_texts_two_cuts.
+
+(* the ledger given as entries and printed by `format`: the printed text in one file against
+   any cut (uses C05_roundtrip: printing well-formed entries and parsing them back gives the
+   same entries) ... *)
+Theorem C11_split_formatted_invariant : forall w L root0 fs root L',
+  wf_ledger L = true -> no_includes L ->
+  wf_tfs fs -> cut_text_of fs root L' -> same_meaning L L' ->
+  forall f0 f qfuel choose o, (1 < f0)%nat -> (length fs < f)%nat ->
+    unplaced (run_files f0 qfuel choose o [(canonicalize root0, format_entries w L)] root0) =
+    unplaced (run_files f qfuel choose o fs root).
+Proof. exact split_formatted_invariant. Qed.
+Print Assumptions C11_split_formatted_invariant.
+
+(* ... and a file of the tree that is itself a printed entry list may be cut along the entries
+   it was printed from *)
+Theorem C11_cut_text_printed_file : forall w fs p es L,
+  wf_ledger es = true -> In (canonicalize p, format_entries w es) fs ->
+  cut_text_entries fs (canonicalize p) es L ->
+  exists L', cut_text_of fs p L' /\ same_meaning L L'.
+Proof. exact cut_text_printed_file. Qed.
+Print Assumptions C11_cut_text_printed_file.
+
+(* What is NOT true, and why cut_text_of goes through the parser instead of slicing the
+   characters of one text: include expansion is not textual inclusion.  Two files, a balanced
+   transaction whose payee starts with `(` and a comment that ends with `)`, included one after
+   the other, are booked (two accounts reported); their texts concatenated in one file are ONE
+   transaction whose code runs over the line ends from the `(` to the `)` (the code parser is
+   take_till(')')), with no payee and no postings, and nothing is reported.  Replayed on the
+   okane binary (Proofs/PipelineExamples.v). *)
+Theorem C11_textual_inclusion_refuted :
+  match run_files 4 0 PriceDb.choose_max TotalPipeline.opts0 [(p_m, t_two); (p_x, t_open); (p_y, t_close)] p_m with
+  | FrReport [_; _] [_; _] => True
+  | _ => False
+  end /\
+  run_files 2 0 PriceDb.choose_max TotalPipeline.opts0 [(p_m, t_open ++ t_close)] p_m = FrReport [] [] /\
+  match parse_ledger (t_open ++ t_close) with
+  | LOk [e] => match e_entry e with STxn t => st_posts t = [] /\ st_payee t = [] | _ => False end
+  | _ => False
+  end.
+Proof. exact textual_inclusion_refuted. Qed.
+Print Assumptions C11_textual_inclusion_refuted.
